@@ -35,3 +35,36 @@ fn c13_box_cursor() {
     match cap { 0 => run(0), 1 => run(1), 2 => run(2), 3 => run(3), _ => run(4) }
     kani::cover!(cap == 3);
 }
+
+// Kani mirrors of the Verus sink contracts for the array and slice cursors (counterexample providers; bounded like above)
+fn run_array(cap_used: usize) {
+    // Cursor<[u8; 4]>: `cap_used` only selects how much of the two writes fits
+    let init: [u8; 4] = kani::any();
+    let data: [u8; 6] = kani::any();
+    let l1: usize = kani::any(); let l2: usize = kani::any();
+    kani::assume(l1 <= 3 && l2 <= 3 && l1 <= cap_used);
+    let mut c = Cursor::new(init);
+    let r1 = c.write_all(&data[.. l1]);
+    assert!(r1.is_ok() == (l1 <= 4), "write_all succeeds iff it fits");
+    let p1 = if l1 <= 4 { l1 } else { 0 };
+    assert!(c.position() == p1, "position != bytes accepted so far");
+    let r2 = c.write_all(&data[3 .. 3 + l2]);
+    assert!(r2.is_ok() == (p1 + l2 <= 4), "write_all succeeds iff it fits");
+    let p2 = if p1 + l2 <= 4 { p1 + l2 } else { p1 };
+    assert!(c.position() == p2, "position != bytes accepted so far (a refused write must not move the cursor)");
+    let out = c.into_inner();
+    let mut i = 0;
+    while i < 4 {
+        let want = if i < p1 { data[i] } else if i < p2 { data[3 + i - p1] } else { init[i] };
+        assert!(out[i] == want, "buffer content: accepted bytes at their positions, everything else untouched");
+        i += 1;
+    }
+}
+
+// @harness name=c13_array_cursor props=C13 kind=bounded features=alloc bound="Cursor<[u8; 4]>, two write_all calls of length 0..=3, all contents" note="mirror of the Verus contract"
+#[kani::proof]
+#[kani::unwind(6)]
+fn c13_array_cursor() {
+    run_array(3);
+    kani::cover!(true);
+}
